@@ -101,6 +101,22 @@ def make_dataclass_model(fields, name="M"):
     return dataclasses.make_dataclass(name, specs)
 
 
+class LoggingFactory:
+    """a default factory with state: every call returns a NEW value and is recorded, so a loader that calls it once when it is
+    generated (and passes that value on every load) is distinguishable from one that calls it per omitted field"""
+
+    def __init__(self):
+        self.log = []
+
+    def __call__(self):
+        self.log.append(1000 + len(self.log))
+        return self.log[-1]
+
+
+def _derived_from_a(self):
+    return ("derived from", self.a)
+
+
 def make_attrs_model(fields, name="M"):
     """an attrs class; `param` becomes the attrs alias, i.e. the constructor parameter is named differently from the field"""
     import attrs
@@ -108,7 +124,10 @@ def make_attrs_model(fields, name="M"):
     for f in fields:
         kw = {}
         if f.default is not None:
-            kw["default"] = f.default[1] if f.default[0] == "value" else attrs.Factory(f.default[1])
+            # ("self-factory", fn): the default is computed by the constructor from the OTHER attributes; a loader cannot
+            # produce it, it has to leave the parameter out
+            kw["default"] = (f.default[1] if f.default[0] == "value" else
+                             attrs.Factory(f.default[1], takes_self=f.default[0] == "self-factory"))
         if f.kind == "kw_only":
             kw["kw_only"] = True
         if f.param is not None:
@@ -476,4 +495,12 @@ def loader_family(tier="quick", group="base"):
         cases.append(Case(f"attrs-custom-init/plain/{dt.name}/strict",
                           [F("a"), F("b", O, ("value", 6543)), F("c", O, ("value", None))],
                           {}, dt, True, model_kind="attrs-init"))
+        # a stateful factory (ids, tokens, timestamps): called once per load that omits the field, never at generation time
+        cases.append(Case(f"stateful-factory/plain/{dt.name}/strict",
+                          [F("a"), F("b", O, ("factory", LoggingFactory())), F("c", O, ("factory", list))], {}, dt, True))
+        # a default the constructor computes from `self`: the parameter is left out when the key is absent, and the parameters
+        # AFTER it must still reach their own slots
+        cases.append(Case(f"attrs-self-factory/plain/{dt.name}/strict",
+                          [F("a"), F("b", O, ("self-factory", _derived_from_a)), F("c", O, ("value", 6)), F("d", O, ("factory", list))],
+                          {}, dt, True, model_kind="attrs"))
     return cases
